@@ -169,7 +169,7 @@ class CSVTracksBuilder(TracksBuilder):
         edge_tuples = [
             (int(parent_id), int(child_id))
             for parent_id, child_id in zip(parent_ids, node_ids, strict=True)
-            if not pd.isna(parent_id) and parent_id != -1
+            if not _is_no_parent(parent_id)
         ]
         # Ensure edge_ids has shape (n, 2) even when empty
         if edge_tuples:
